@@ -97,7 +97,7 @@ func init() {
 		TestPkg:    "x/fakenet", TestName: "TestZSimC41",
 		QuickRuns: 20000, ThoroughRuns: 3000000, QuickBudget: 3 * time.Minute, ThoroughBudget: 40 * time.Minute,
 		MaxStepsQuick: 5000, MaxStepsThor: 20000, Chunk: 1250,
-		Rule: "each run draws 0-2 readers, 0-2 writers, 0-2 closers (each optionally issuing operations after its Close returned), an input feeder, stream knobs (does Close unblock the underlying stream, k-th call fails, k-th write blocks for a while or forever, EOF or not) and a scheduling strategy from its seed; the scheduler decides every interleaving at each channel operation, select, lock and stream call, and short-read lengths. A settle phase closes the connection while operations may still be pending. Non-trivial = at least 2 completed connection calls and 3 context switches; distinct = distinct (event-log hash, workload hash) pairs",
+		Rule: "each run draws 0-2 readers, 0-2 writers (buffers of 1-6 bytes, 12% around 512/4096/8192/32768/65536), 0-2 closers (each optionally issuing operations after its Close returned), an input feeder, stream knobs (does Close unblock the underlying stream, k-th call fails, k-th write blocks for a while or forever, EOF or not) and a scheduling strategy from its seed; the scheduler decides every interleaving at each channel operation, select, lock and stream call, and short-read lengths. A settle phase closes the connection while operations may still be pending. Non-trivial = at least 2 completed connection calls and 3 context switches; distinct = distinct (event-log hash, workload hash) pairs",
 		Real: []string{"x/fakenet/conn.go (NewConn, fakeConn.Read/Write/Close, connFeeder.do/run/close) compiled from the working tree", "real channels and select statements (polling order decided by the simulator)"},
 		Stubbed: []string{"sync.Mutex (simulated)", "the underlying in/out streams (simulated: short reads, errors, blocking, Close that does or does not unblock)"},
 		Assumptions: []string{"the standard library is that of go1.26.8", "a goroutine woken by another goroutine's channel operation runs only up to its next scheduling point concurrently with its waker"},
@@ -109,9 +109,9 @@ func init() {
 		TestPkg:    "x/jsonrpc2", TestName: "TestZSimC39",
 		QuickRuns: 16000, ThoroughRuns: 6000000, QuickBudget: 4 * time.Minute, ThoroughBudget: 60 * time.Minute,
 		MaxStepsQuick: 8000, MaxStepsThor: 30000, Chunk: 375,
-		Rule: "each run draws a transport (synchronous pipe like net.Pipe, or 64/4096-byte buffers), a fault plan (none in ~35% of runs; otherwise short reads, chunked writes, a disconnect in the middle of a write or first noticed by a read, a cut at a byte offset, a half-close, a stall healed in the settle phase), in ~20% of runs a scripted raw peer instead of the second connection (duplicate responses, responses with unknown or wrong-kind ids, error responses, no response, garbage frames, duplicate request ids, unsolicited responses), in ~25% of the other runs a second client dialling the same server, 1-4 caller tasks spread over the two endpoints issuing calls (echo, peek answered on the read loop, slow, async with a later Respond, re-entrant, failing, unknown), notifications, cancel notifications, cancelled Await contexts, second awaiters, Close and Wait, and a scheduling strategy. After the first quiescence faults stop, blocked handlers are released and both ends are closed. Non-trivial = at least one completed Await and 10 context switches; distinct = distinct (event-log hash, workload hash) pairs",
-		Real: []string{"x/jsonrpc2 conn.go, serve.go (Dial, NewServer/run, newConnection), frame.go (HeaderFramer), messages.go, wire.go, jsonrpc2.go compiled from the working tree", "real channels/select (polling order decided by the simulator), context, encoding/json, bufio"},
-		Stubbed: []string{"sync.Mutex/WaitGroup/Once and sync/atomic (simulated / yield-wrapped)", "the byte transport (simnet pipe) and the listener", "application handlers, preempter and binder (harness)", "idleListener, stdio and langserver are not exercised"},
+		Rule: "each run draws a transport (synchronous pipe like net.Pipe, or 64/4096-byte buffers), a fault plan (none in ~35% of runs; otherwise short reads, chunked writes, a disconnect in the middle of a write or first noticed by a read, a cut at a byte offset, a half-close, a stall healed in the settle phase), in ~20% of runs a scripted raw peer instead of the second connection (duplicate responses, responses with unknown or wrong-kind ids, error responses, no response, garbage frames, duplicate request ids, unsolicited responses), in ~25% of the other runs a second client dialling the same server, in ~20% the server behind NewIdleListener (timeout 1 ms / 50 ms / 60 s of simulated time, early-expiry rate 0-15% per step, 0-2 further clients that dial once the first has closed), in ~8% (30% behind the idle listener) one Accept that fails with an ordinary error, 1-4 caller tasks spread over the two endpoints issuing calls (echo, peek answered on the read loop, slow, async with a later Respond, re-entrant, failing, unknown), notifications, cancel notifications, cancelled Await contexts, second awaiters, Close and Wait, and a scheduling strategy. After the first quiescence faults stop, blocked handlers are released and both ends are closed. Non-trivial = at least one completed Await and 10 context switches; distinct = distinct (event-log hash, workload hash) pairs",
+		Real: []string{"x/jsonrpc2 conn.go, serve.go (Dial, NewServer/run/Shutdown/Wait, newConnection, NewIdleListener/idleListener), frame.go (HeaderFramer), messages.go, wire.go, jsonrpc2.go compiled from the working tree", "real channels/select (polling order decided by the simulator), context, encoding/json, bufio"},
+		Stubbed: []string{"sync.Mutex/WaitGroup/Once and sync/atomic (simulated / yield-wrapped)", "the byte transport (simnet pipe) and the listener", "application handlers, preempter and binder (harness)", "package time (stime: simulated clock; the idle listener's timer fires when nothing else can run or when the seeded scheduler lets the deadline pass first) and runtime.SetFinalizer (no-op inside a simulation)", "stdio and langserver are not exercised"},
 		Assumptions: []string{"the harness uses the API legally (Respond exactly once per asynchronous request, Preempt never blocks)", "the standard library is that of go1.26.8"},
 	})
 	register(&spec{
@@ -128,12 +128,13 @@ func init() {
 	})
 	register(&spec{
 		ID: "C36", Title: "The import cache key changes exactly when package sources change", Level: "exploration",
+		Instrument: map[string]simgen.Options{xgo + "/tool": {Sync: true, Conc: true, Maps: true, Files: []string{"imp.go"}, Swap: map[string]string{"time": simgen.SimrtPath + "/stime"}}},
 		Harness: []harnessCopy{{"c36", "tool"}},
 		TestPkg: "tool", TestName: "TestZSimC36",
 		QuickRuns: 4000, ThoroughRuns: 400000, QuickBudget: 4 * time.Minute, ThoroughBudget: 40 * time.Minute,
 		Chunk: 250,
 		Rule: "each run draws a history of 4-29 (thorough: 4-60) operations on a module package directory — create, same-size rewrite, append, truncate, touch, rename, delete, mkdir, file in a sub-directory — over 10 compilable names (.go .xgo .gop .gox incl. dot-files, _test files, gop_autogen.go) and 10 irrelevant ones (underscore-prefixed, other extensions, backup suffixes), each stamped from a simulated clock that advances by 0, 1ns, sub-second, seconds, an hour or jumps backwards, truncated to a per-run mtime granularity (1ns, 1us, 1s, 2s); after every step PkgHash is recomputed and compared with the reference projection read back from the directory. Non-trivial = at least 3 judged steps of which at least 1 changed the projection; distinct = distinct (step/hash log, workload hash) pairs",
-		Real: []string{"tool/imp.go (NewImporter, Importer.PkgHash, dirHash, canCl) compiled from the working tree (not instrumented: sequential)", "goplus/mod module lookup, a real directory on tmpfs"},
+		Real: []string{"tool/imp.go (NewImporter, Importer.PkgHash, dirHash, canCl) compiled from the working tree; it is sequential today, but it is instrumented and runs under the seeded scheduler so that goroutines, locks or map iteration added to it are decided by the simulator too", "goplus/mod module lookup, a real directory on tmpfs"},
 		Stubbed: []string{"the clock that stamps files (os.Chtimes from a simulated clock with granularity knob)", "the history of file-system operations (generated)"},
 		Assumptions: []string{"regular files only: no symlinks, devices, or names with control characters", "class-file extensions registered through go.mod are not exercised (the module registers none)", "only consecutive states are compared, as the statement says"},
 	})
